@@ -13,6 +13,9 @@ buffer balance of get_chunk.  The implementation is also judged by the extracted
 (engine "flat-spec"): reads against [rearrange records], streams against [encode records],
 plain files against the zero-extended file, split-set owners against [spec_owner].
 
+Engine "diskset" (harness/diskset_drv.c, #include of sadump.c): the disk-extent walk of
+sadump_read_page vs DiskSetModel.walk, judged by DiskSetSpec.loc_spec.
+
 Engine "flat-e2e" (harness/flat_e2e.c, public API only): see lib/kdv/c11_e2e.py."""
 import itertools
 
@@ -495,6 +498,67 @@ def check_split(run, exe, nsets):
                           replay, found_input=True, signature="split order")
 
 
+def gen_diskset(rng):
+    """Extents of a disk set (data_pos, data_len, fidx) - lengths include 0 (a disk without
+    page data) - and positions at, just below and just above every extent boundary."""
+    n = rng.randint(1, 5)
+    order = list(range(n))
+    rng.shuffle(order)                      # file index of disk k: any order of passing
+    exts = []
+    total = 0
+    probes = {0, 1}
+    for k in range(n):
+        ln = rng.choice([0, 0x1000, 0x2000, 0x5000, 0x1000 * rng.randint(1, 300), rng.randint(1, 0x9000)])
+        dp = rng.choice([0x1000, 0x3000, 0x1000 * rng.randint(1, 40), rng.randint(0, 0x8000)])
+        if rng.random() < 0.03:
+            ln = (1 << 62) - rng.randint(0, 0x2000)
+        exts.append((dp, ln, order[k]))
+        total += ln
+        probes |= {total, max(0, total - 1), total + 1, max(0, total - 0x1000), total + 0x1000,
+                   max(0, total - ln // 2)}
+    probes |= {total + rng.randint(0, 1 << 40), (1 << 63) - 1 - rng.randint(0, 5) if rng.random() < 0.05 else 0}
+    probes = sorted(p for p in probes if 0 <= p < (1 << 63))[:60]
+    return "D %s | %s" % (",".join("%x:%x:%x" % e for e in exts), " ".join("%x" % p for p in probes))
+
+
+def check_diskset(run, nsets):
+    """Engine "diskset": the extent walk of sadump_read_page vs DiskSetModel.walk, judged by
+    DiskSetSpec.loc_spec."""
+    exe = run.need_cc("diskset_drv", "diskset_drv.c", sources=core.lib_sources(exclude=("sadump.c",)),
+                      flags=["-Wl,--wrap=_kdumpfile_priv_fcache_pread"])
+    if exe is None:
+        return
+    lines = [gen_diskset(run.rng) for _ in range(nsets)]
+    corpus = core.os.path.join(core.VERIF, "corpus", "flat.txt")
+    if core.os.path.exists(corpus):
+        lines = [l for l in open(corpus).read().split("\n") if l.startswith("D ")] + lines
+    model, impl, crashes = run_both(run, exe, lines, "diskset-cases.txt")
+    spec_in = ["D %s | %s" % (l[2:].split("|")[0].strip(), im) for l, im in zip(lines, impl)]
+    verd = core.run_model("flat-spec", run.casefile("diskset-spec.txt", spec_in))
+    run.cov["engines"]["diskset"] = {"extent_sets": len(lines),
+                                     "positions": sum(len(l.split("|")[1].split()) for l in lines)}
+    for l, im in zip(lines, impl):
+        n = len(l[2:].split("|")[0].split(","))
+        run.count("diskset-%ddisks" % n)
+        run.count("diskset-answers-nodata", im.count("=nodata"))
+        run.note_case(l, n > 1)
+    bad = sorted(set(core.diff_lines(model, impl)) | set(crashes) | {i for i, v in enumerate(verd) if v != "ok"})
+    for i in bad[:3]:
+        sv = verd[i] if i < len(verd) else "?"
+        replay = {"engine": "diskset", "case": lines[i], "model": model[i:i + 1],
+                  "implementation": impl[i:i + 1], "spec_verdict": sv,
+                  "how": "bin/check C11 --replay <this file> re-runs the case through harness/diskset_drv.c"}
+        if i in crashes:
+            run.violation("impl", "sadump_read_page aborts on extents: %s" % lines[i][:300], replay,
+                          found_input=True, signature="diskset crash")
+        elif sv != "ok":
+            run.violation("spec", "SADUMP disk set: %s; extents (data_pos:data_len:fidx) %s"
+                          % (sv, lines[i][:300]), replay, found_input=True, signature="diskset spec " + sv)
+        else:
+            run.violation("tie", "correspondence diskset (DiskSetModel.walk vs sadump_read_page) broken on %s"
+                          % lines[i][:300], replay, found_input=False, signature="diskset tie")
+
+
 def check(run):
     run.trusted += [
         "modelled, not verified: the file cache below flatmap.c (fcache_pread / fcache_get_chunk are a "
@@ -502,6 +566,8 @@ def check(run):
         "per call); qsort (insertion sort in the model; theorems assume distinct end_pfn)",
         "harness/flat_drv.c intercepts fcache_pread, fcache_get_chunk, malloc, calloc, realloc, free "
         "with ld --wrap (no source change); the white-box run uses the read(2) policy of the file cache",
+        "harness/diskset_drv.c (#include of sadump.c; builds sadump_priv / one-page regions by hand and "
+        "intercepts fcache_pread); the SADUMP header parsing that fills sp->ext[] is exercised end to end only",
         "lib/kdv/flatten.py (the flattener used to produce streams; its output is compared with "
         "FlatSpec.encode on every well-formed case)"]
     run.assumptions += [
@@ -509,6 +575,8 @@ def check(run):
         "pos + len <= 2^63 (off_t)",
         "a flattened stream has fewer than 2^31 records (segidx is stored in an int method index)",
         "split windows [start_pfn, end_pfn) are non-empty and pairwise disjoint (DESIGN section 8 (iii))",
+        "a SADUMP disk set is complete (disk numbers 1..n, each once), extent lengths are non-negative and "
+        "data areas consist of whole pages",
         "the plain twin of a flattened file is read with zero bytes past its end, as the read(2) path "
         "of fcache.c delivers them"]
     run.check_coq()
@@ -523,6 +591,27 @@ def check(run):
         if rp.get("engine") == "flat-e2e":
             from .. import c11_e2e
             c11_e2e.replay(run, rp)
+            return
+        if rp.get("engine") == "diskset":
+            dexe = run.need_cc("diskset_drv", "diskset_drv.c",
+                               sources=core.lib_sources(exclude=("sadump.c",)),
+                               flags=["-Wl,--wrap=_kdumpfile_priv_fcache_pread"])
+            if dexe is None:
+                return
+            line = rp["case"]
+            model, impl, crashes = run_both(run, dexe, [line], "diskset-replay.txt")
+            print("model:          " + (model[0] if model else ""))
+            print("implementation: " + (impl[0] if impl else ""))
+            sv = "crash"
+            if impl and not crashes:
+                sv = core.run_model("flat-spec", run.casefile(
+                    "diskset-spec.txt", ["D %s | %s" % (line[2:].split("|")[0].strip(), impl[0])]))[0]
+            if sv != "ok":
+                run.violation("spec", "replayed disk-set case still fails: " + sv, rp, found_input=True,
+                              signature="diskset replay " + sv)
+            elif model != impl:
+                run.violation("tie", "replayed disk-set case: model and implementation differ", rp,
+                              found_input=False, signature="diskset replay tie")
             return
         line = rp["case"]
         model, impl, crashes = run_both(run, exe, [line], "flat-replay.txt")
@@ -562,6 +651,8 @@ def check(run):
     check_flat(run, exe, 1500 if quick else 40000, 8 if quick else 12)
     if len(run.violations) <= 3:
         check_split(run, exe, 150 if quick else 4000)
+    if len(run.violations) <= 3:
+        check_diskset(run, 300 if quick else 20000)
     if len(run.violations) <= 3:
         from .. import c11_e2e
         c11_e2e.check(run)
